@@ -789,7 +789,7 @@ fn mutate_direct(r: &mut Rng, p: &[Stmt], src: &str) -> Vec<Stmt> {
 }
 
 pub fn run(ctx: &Ctx, _replay: Option<&str>) {
-    let n = ctx.n(3000, 150_000) as usize;
+    let n = ctx.n(3000, 40_000) as usize;
     let base = Rng::new(ctx.seed);
     let stats = std::sync::Mutex::new((Counts { ok: 0, err: BTreeMap::new(), panics: 0 }, BTreeMap::<String, i64>::new()));
     par_for(n, |k| {
